@@ -460,7 +460,7 @@ class History:
                     max_live=max(len(self.live_in(hi, lo)) for hi, lo in zip(self.bounds[:-1], self.bounds[1:])))
 
 # ------------------------------------------------------------------------------------------------- random dadi programs (export)
-def random_program(rng, max_pops=5, n_steps=None, pulses5=True):
+def random_program(rng, max_pops=5, n_steps=None, allow_admix=True, p_reorder=1.0, final_reorder=0.3):
     """a neutral dadi program of 1..max_pops populations from splits, admixture, pulses, removal, reordering and constant /
     exponential / linear size changes with migration; root relative size `nu0` (1 mostly)."""
     n_steps = int(rng.integers(3, 9)) if n_steps is None else n_steps
@@ -480,8 +480,8 @@ def random_program(rng, max_pops=5, n_steps=None, pulses5=True):
     last_integ = True
     for _ in range(n_steps):
         opts = []
-        if d < max_pops: opts += ['split', 'split', 'admix']
-        if d >= 2: opts += ['pulse', 'pulse', 'remove', 'reorder']
+        if d < max_pops: opts += ['split', 'split'] + (['admix'] if allow_admix else ['split'])
+        if d >= 2: opts += ['pulse', 'pulse', 'remove'] + (['reorder'] if rng.random() < p_reorder else [])
         k = opts[int(rng.integers(len(opts)))]
         if k == 'split':
             p = int(rng.integers(d)); ops.append(dict(op='newpop', props=[1.0 if i == p else 0.0 for i in range(d)])); d += 1
@@ -507,4 +507,6 @@ def random_program(rng, max_pops=5, n_steps=None, pulses5=True):
             ops.append(integ(d))
     if ops[-1]['op'] != 'integrate':
         ops.append(integ(d))
+    if d >= 2 and rng.random() < final_reorder:
+        ops.append(dict(op='reorder', order=rng.permutation(d).tolist()))      # no integration follows: no splitting effect
     return ops, d
